@@ -21,6 +21,7 @@ def check(tree, rep, tier='quick', seed=0):
     R.k24e_waiters_only_tracker_mutates(core, rep)     # ... nor removed from the tracker's list by whoever is handed that list (the prompt callback)
     R.k13_add_form(core, rep)
     R.k14_solution_lists_all(core, rep)
+    R.k22f_solution_written_unfiltered(core, rep)   # ... and the file the CLI writes holds exactly those sections (plus the tax year)
     R.k26_cli_requested_forms(core, rep)
     R.k21_typed_values(core, rep)
     R.k6_single_value_writer(core, rep)
